@@ -3,6 +3,7 @@ import TantivyModel.Proofs.QueryLists
 import TantivyModel.Proofs.PhraseSlop
 import TantivyModel.Proofs.OrderEnc
 import TantivyModel.Proofs.LeafTree
+import TantivyModel.Proofs.JsonRange
 /-!
 # C03 — Queries match exactly the documents their logical meaning prescribes
 
@@ -413,6 +414,31 @@ theorem C03_range_paths_agree (w : Nat) (lo hi : BndN) (v : Nat) (hv : v < 256 ^
   cases lo <;> cases hi <;> simp only [bndBe, bndBelow] at hlo hhi ⊢ <;>
     simp [L, R, hlo, hhi] <;> rw [Bool.eq_iff_iff] <;> simp <;> omega
 
+/-! ## range over a numeric JSON path: bound type × column type -/
+
+/-- `search_on_json_numerical_field`, integer bounds on integer columns: for every bound kind
+(inclusive / exclusive / unbounded), bound type (i64 / u64 term) and column type (i64 / u64) the
+converted bounds select exactly the values of the column that satisfy the numeric meaning of the
+range — except for a u64 lower bound above i64::MAX on an i64 column (`lowerOk`, next theorem).
+In particular a negative i64 upper bound on a u64 column selects nothing (`Excluded(0)`), a
+negative lower bound everything, a u64 upper bound above i64::MAX on an i64 column everything. -/
+theorem C03_json_int_range_coercion_partial (col : JsonRange.ColT) (lo hi : JsonRange.B) (v : Int)
+    (hv : JsonRange.inCol col v) (hlo : lo.wf) (hhi : hi.wf) (hok : JsonRange.lowerOk col lo = true) :
+    JsonRange.implMatch col lo hi v = JsonRange.specMatch lo hi v := by
+  unfold JsonRange.implMatch JsonRange.coerce
+  rw [JsonRange.inRangeN_eq, JsonRange.specMatch_eq, JsonRange.lower_exact col lo v hv hlo hok,
+    JsonRange.upper_exact col hi v hv hhi]
+
+/-- the excluded combination is really wrong in the pinned code: `attrs.n:[9223372036854775808 TO *]`
+(a u64 term) on a path whose column is i64 is converted to `Excluded(i64::MAX as u64)` in the
+column's *encoded* space, i.e. to "value ≥ 0", instead of "nothing" -/
+theorem C03_json_u64_lower_bound_on_i64_column_counterexample :
+    JsonRange.implMatch .i64 (.incl (.u (2 ^ 63))) .unb 5 = true
+      ∧ JsonRange.specMatch (.incl (.u (2 ^ 63))) .unb 5 = false
+      ∧ JsonRange.implMatch .i64 (.incl (.u (2 ^ 63))) .unb (-5) = false
+      ∧ JsonRange.lowerOk .i64 (.incl (.u (2 ^ 63))) = false := by
+  decide
+
 /-! ## non-vacuity -/
 
 /-- the classifier that never specialises is sound on every leaf -/
@@ -467,6 +493,13 @@ example : (-1 : Int) = (BitVec.ofNat 64 (2^64 - 1)).toInt ∧ (BitVec.ofNat 64 5
 example : OrderEnc.f64Key (BitVec.ofNat 64 (2^63)) < OrderEnc.f64Key (BitVec.ofNat 64 0) := by decide
 example : (300 : Nat) < 256 ^ 2 ∧ OrderEnc.be 2 300 = [1, 44] := by decide
 example : bndBelow 2 (BndN.incl 300) := by show 300 < 256 ^ 2; decide
+example : JsonRange.inCol .u64 0 ∧ (JsonRange.B.excl (.i (-3))).wf ∧ JsonRange.lowerOk .u64 (.excl (.i (-3))) = true
+    ∧ JsonRange.implMatch .u64 .unb (.excl (.i (-3))) 0 = false := by
+  refine ⟨?_, ?_, by decide, by decide⟩
+  · show (0 : Int) ≤ 0 ∧ (0 : Int) < 2 ^ 64
+    decide
+  · show -(2 ^ 63) ≤ (-3 : Int) ∧ (-3 : Int) ≤ JsonRange.I64MAX
+    decide
 example : (([⟨1, [], []⟩, ⟨2, [], []⟩] : List ADoc)).Perm [⟨2, [], []⟩, ⟨1, [], []⟩] :=
   List.Perm.swap _ _ _
 
